@@ -41,6 +41,13 @@ def minFin [LT K] [DecidableLT K] (init : K) : (n : Nat) → (Fin n → K) → K
   | 0, _ => init
   | n + 1, f => vmin (minFin init n (fun i => f i.castSucc)) (f (Fin.last n))
 
+/-- `vmax`-fold of `f 0 … f (cnt-1)` only (loops `for i < n_lb`), starting from `init`. -/
+def maxFinHead [LT K] [DecidableLT K] (init : K) (cnt : Nat) : (n : Nat) → (Fin n → K) → K
+  | 0, _ => init
+  | n + 1, f =>
+    let acc := maxFinHead init cnt n (fun i => f i.castSucc)
+    if n < cnt then vmax acc (f (Fin.last n)) else acc
+
 abbrev Vec (K : Type) (n : Nat) := Vector K n
 abbrev Mat (K : Type) (m n : Nat) := Vector (Vector K n) m
 
